@@ -27,6 +27,15 @@ def affRow {F : Type} [Add F] [Mul F] (c d : F) (r : Row F) : Row F := { r with 
 section
 variable {F : Type} [Add F] [Sub F] [Mul F] [Div F] [NatCast F]
 
+/-- `StochasticIPTW.fit`: row weight `Pr*(A=a) / Pr(A=a | L)` with `p` the plan's probability of treatment for the
+    row and `π` the fitted propensity -/
+def stochOmega (p π : Row F → F) (r : Row F) : F :=
+  (if r.a then p r else ((1 : Nat) : F) - p r) / (if r.a then π r else ((1 : Nat) : F) - π r)
+
+/-- … and the marginal outcome `np.average(Y, weights = ω·w)` over all rows -/
+def stochMean (l : List (Row F)) (p π : Row F → F) : F :=
+  sumBy (fun r => stochOmega p π r * (r.w * r.y)) l / sumBy (fun r => stochOmega p π r * r.w) l
+
 /-- `np.mean` of a per-element quantity -/
 def lmean {α : Type} (f : α → F) (l : List α) : F := sumBy f l / ((l.length : Nat) : F)
 
